@@ -1,6 +1,7 @@
 import Drivers.Proto
 import St4sd.Model.Repl
 import St4sd.Model.ReplVars
+import St4sd.Model.ReplConf
 /-! Model driver for property C03: `expand` = resolution of the replicate/aggregate attributes in the scope
 chain of every component (`ReplVars.resolveAll`), then graph-level and text-level expansion of one workflow. -/
 open Lean Proto St4sd.Repl St4sd.Str
@@ -41,6 +42,12 @@ def getSpec (j : Json) (k : String) : Except String Spec :=
     match v.getObjVal? "var" with
     | .ok n => do return .var (← n.getStr?).toList
     | .error _ => do return .lit (← getChars v "lit")
+
+def jvars (v : Vars) : Json :=
+  jarr ((normVars v).map fun kv => jarr [jchars kv.1, jchars kv.2])
+
+def errKind : Err → String
+  | .unknown => "unknown" | .inconsistent => "inconsistent" | .duplicate => "duplicate"
 
 def parseRaw (j : Json) : Except String (Raw × S) := do
   let refs ← (← getArr j "refs").mapM parseRef
@@ -92,13 +99,47 @@ def handle (j : Json) : Except String Json := do
         ("comps", jarr (t.map fun o => jobj [("id", cid o.stage o.name), ("refs", jarr (o.refs.map jchars))]))]
     | .ok out =>
       let t := (goText [] [] cs).getD []
-      let tj := t.map fun o => jobj [("id", cid o.stage o.name), ("refs", jarr (o.refs.map jchars)),
-        ("args", jchars o.args), ("replica", jopt jnat o.replica), ("replicate", jopt jnat o.repl)]
+      -- component-level variables of every emitted component (ReplVars.goVars), aligned with the text level
+      let vs := (goVars [] [] (wf.zip (raws.map (·.vars)))).getD []
+      let tj := (t.zip vs).map fun (o, v) => jobj [("id", cid o.stage o.name), ("refs", jarr (o.refs.map jchars)),
+        ("args", jchars o.args), ("replica", jopt jnat o.replica), ("replicate", jopt jnat o.repl),
+        ("vars", jvars v)]
       let gj := out.map fun o => jobj [("id", cid o.stage o.name), ("refs", jarr (o.refs.map fun r => jchars (render r))),
         ("producers", jarr ((o.refs.filter (·.isComp)).map fun r => cid r.stage r.name)),
         ("replica", jopt jnat o.replica), ("replicate", jopt jnat o.repl)]
       let ej := (edges out).map fun e => jarr [cid e.1.1 e.1.2, cid e.2.1 e.2.2]
       return jobj [("in_refs", inRefs), ("resolved", resolved), ("text", jarr tj), ("graph", jarr gj), ("edges", jarr ej)]
+  | "history" =>
+    -- one configuration object: constructed with steps[0], then parametrised with steps[1], steps[2], ...
+    -- (ReplConf.construct / ReplConf.parametrize); reports `_concrete` after every non-primitive step
+    let rs ← (← getArr j "comps").mapM parseRaw
+    let g ← getVars j "gvars"
+    let sv ← parseStageVars j
+    let doc : Doc := { g := g, st := stageVars sv, wf := rs.map (·.1) }
+    let steps ← (← getArr j "steps").mapM fun sj => do
+      let ug ← getVars sj "g"
+      let us ← parseStageVars sj
+      let prim ← getBool sj "primitive"
+      return (({ global := ug, stages := us } : UserVars), prim)
+    let report (c : Conf) : Json :=
+      match c.concrete with
+      | .primitive _ => Json.null
+      | .replicated (.error (.resolve .unresolved)) => jobj [("error", jstr "unresolved")]
+      | .replicated (.error (.resolve .convert)) => jobj [("error", jstr "convert")]
+      | .replicated (.error (.expand e)) => jobj [("error", jstr (errKind e))]
+      | .replicated (.ok out) =>
+        jobj [("comps", jarr (out.map fun o => jobj [("id", cid o.stage o.name),
+                ("refs", jarr (o.refs.map fun r => jchars (render r))),
+                ("replica", jopt jnat o.replica), ("replicate", jopt jnat o.repl)])),
+              ("edges", jarr ((edges out).map fun e => jarr [cid e.1.1 e.1.2, cid e.2.1 e.2.2]))]
+    match steps with
+    | [] => throw "no step"
+    | s0 :: rest =>
+      let c0 := construct doc s0.1 s0.2
+      let (_, outs) := rest.foldl (fun (acc : Conf × List Json) s =>
+        let c := parametrize acc.1 s.1 s.2
+        (c, acc.2 ++ [report c])) (c0, [report c0])
+      return jobj [("steps", jarr outs)]
   | "replica_old" =>
     -- unrepaired compile_component_replica applied to the references of the last component for copy i
     let (_, res) ← parseComps j
